@@ -308,8 +308,14 @@ def execute(plan, out, log):
         R = run_solver(B, spec, sim)
     if R.exc is not None:
         raise Discard(f"solver_raised:{spec['name']}:{type(R.exc).__name__}")
-    if sim.failed_instances():
-        raise Discard(f"organic_nonconvergence:{spec['name']}")
+    failed = sim.failed_instances()
+    if failed:
+        first = min(i[6] for i in failed)
+        if any(w[0] > first for w in sim.warnings):
+            raise Discard(f"organic_nonconvergence:{spec['name']}")
+        # a loop was left although its last verdict was 'not converged', and the solver said nothing: it hands these
+        # steps out as converged ones, so the laws are checked on them like on any other step
+        out["probes"]["loop_left_unconverged_without_notice"] += 1
     sol = R.sol
     if len(sol.t) < spec["steps"] + 1:
         raise Discard(f"truncated:{spec['name']}")
